@@ -230,12 +230,12 @@ def _np_scalar(rng, v):
             w = t(v)
         except (OverflowError, ValueError):
             continue
-        if float(w) == float(v) and (isinstance(v, float) or numpy.issubdtype(t, numpy.integer)):
+        if float(w) == float(v) and isinstance(v, float) == (not numpy.issubdtype(t, numpy.integer)):     # floats stay floats, ints stay ints
             return w
     return v
 
 
-def run_pipeline(case, producers_first=True, rng=None, whole_run=False):
+def run_pipeline(case, producers_first=True, rng=None, whole_run=False, program=None, tag=""):
     """The same case through the whole pipeline: a Program whose producer commands hand out the input arrays, the command under test added
     with its arguments as the parser would deliver them (numbers, words, ListArguments), evaluated through `.result` - i.e. through
     `Command.run`, `validate_params` and every parameter cleaner.  Returns a dict like run_impl; raw exceptions raised inside the body arrive
@@ -245,7 +245,8 @@ def run_pipeline(case, producers_first=True, rng=None, whole_run=False):
     from mpilot.arguments import Argument, ListArgument
     from mpilot.exceptions import MPilotError, UnexpectedError
     lib = arrays_lib()
-    lib.HOLD.clear()
+    if program is None:
+        lib.HOLD.clear()
     libname, how, pmap = COMMANDS[case.cmd]
     cls = command_class(case.cmd)
     fuzzy_in = case.cmd in FUZZY_CONSUMERS
@@ -254,11 +255,11 @@ def run_pipeline(case, producers_first=True, rng=None, whole_run=False):
         first.setdefault(id(a), i)
     copies = {i: case.inputs[i].copy() for i in set(first.values())}
     inputs = [copies[first[id(a)]] for a in case.inputs]
-    names = ["I%d" % first[id(a)] for a in case.inputs]
-    p = Program(libraries=("mpilot.libraries.eems.basic", "mpilot.libraries.eems.fuzzy", ARRLIB))
+    names = ["I%s%d" % (tag, first[id(a)]) for a in case.inputs]
+    p = program if program is not None else new_pipeline_program()
     for i in sorted(copies):
-        lib.HOLD["I%d" % i] = copies[i]
-        p.add_command(lib.HeldFuzzy if fuzzy_in else lib.HeldData, "I%d" % i, OrderedDict())
+        lib.HOLD["I%s%d" % (tag, i)] = copies[i]
+        p.add_command(lib.HeldFuzzy if fuzzy_in else lib.HeldData, "I%s%d" % (tag, i), OrderedDict())
     args = OrderedDict()
     if how == "one":
         args["InFieldName"] = Argument("InFieldName", names[0], ARG_LINE0)
@@ -279,13 +280,13 @@ def run_pipeline(case, producers_first=True, rng=None, whole_run=False):
         warnings.simplefilter("ignore")
         old = numpy.seterr(all="ignore")
         try:
-            p.add_command(cls, "R", args, lineno=CMD_LINE)
+            p.add_command(cls, "R" + tag, args, lineno=CMD_LINE)
             if producers_first:
                 for i in sorted(copies):
-                    p.commands["I%d" % i].result
+                    p.commands["I%s%d" % (tag, i)].result
             if whole_run:
                 p.run()
-            r = p.commands["R"].result
+            r = p.commands["R" + tag].result
             out.update(status="ok", result=r, vis=common.vis_arr(r))
         except UnexpectedError as e:
             out.update(status="err", kind="unexpected", cls=type(e.exc).__name__, ref="none", text=str(e.exc)[:200])
@@ -296,6 +297,12 @@ def run_pipeline(case, producers_first=True, rng=None, whole_run=False):
         finally:
             numpy.seterr(**old)
     return out
+
+
+def new_pipeline_program():
+    from mpilot.program import Program
+    arrays_lib()
+    return Program(libraries=("mpilot.libraries.eems.basic", "mpilot.libraries.eems.fuzzy", ARRLIB))
 
 
 def pipeline_differs(direct, piped):
@@ -416,7 +423,10 @@ def rand_array(rng, shape, dtype=float, lattice=None, mask_style=None):
 
 
 def rand_num(rng, ints=(-2, -1, 0, 1, 2, 3), fracs=(-1.5, -0.5, 0.25, 0.5, 0.75, 1.5, 2.5)):
-    return rng.choice(ints) if rng.random() < 0.5 else rng.choice(fracs)
+    r = rng.random()
+    if r < 0.1:
+        return float(rng.choice(ints))       # a whole number written with a decimal point is still a float
+    return rng.choice(ints) if r < 0.55 else rng.choice(fracs)
 
 
 def distinct_nums(rng, n, pool):
@@ -442,7 +452,7 @@ def gen_params(rng, cmd, inputs, style="valid"):
     p = {}
     if cmd in ("WeightedSum", "WeightedMean", "FuzzyWeightedUnion"):
         m = n if not wild or rng.random() < 0.7 else max(0, n + rng.choice([-1, 1]))
-        pool = [1, 2, 3, 0.5, 0.25, 1.5, 0, -1, -0.5] if cmd != "WeightedSum" or rng.random() < 0.6 else [1, 2, 3, -1, 0]
+        pool = [1, 2, 3, 0.5, 0.25, 1.5, 0, -1, -0.5, 2.0, 1.0, 3.0] if cmd != "WeightedSum" or rng.random() < 0.6 else [1, 2, 3, -1, 0]
         p["Weights"] = [rng.choice(pool) for _ in range(m)]
         if m and rng.random() < 0.3:
             p["Weights"][rng.randrange(m)] = 1      # neutral weights invite short-cuts
@@ -704,6 +714,7 @@ def run_stream(ctx, model, cases, stream, tol=common.TOL, on_result=None, rerun=
     """runs cases on implementation and model, records disagreements; calls on_result(case, out, answer)"""
     outs = []
     kept = []
+    shared = [None, 0, []]    # one long-lived Program that many of the cases are added to, how many it holds, their protocol lines
     for c in cases:
         if near_discontinuity(c):
             ctx.count("skipped_near_discontinuity")
@@ -755,6 +766,20 @@ def run_stream(ctx, model, cases, stream, tol=common.TOL, on_result=None, rerun=
                             numpy.array_equal(numpy.ma.getdata(before)[~numpy.ma.getmaskarray(before)], numpy.ma.getdata(after)[~numpy.ma.getmaskarray(after)])):
                         ctx.fail("%s: evaluated inside a Program, the stored result of one of its inputs changed" % c.cmd, c.describe())
                         break
+            if out["status"] == "ok" and ctx.rng.random() < 0.5:
+                # the same command as one of many in ONE long-lived Program (sub-models over other shapes, element types and parameters
+                # were evaluated there before it): what it returns depends on its own inputs and parameters only
+                if shared[0] is None or shared[1] >= 25:
+                    shared[0], shared[1], shared[2] = new_pipeline_program(), 0, []
+                    arrays_lib().HOLD.clear()
+                shared[1] += 1
+                shared[2].append(c.line())
+                piped = run_pipeline(c, producers_first=bool(ctx.rng.random() < 0.5), program=shared[0], tag="_%d_" % shared[1])
+                ctx.count("shared_program_twins")
+                d = pipeline_differs(out, piped)
+                if d:
+                    ctx.fail("%s: evaluated as command %d of a Program that evaluated other commands before it, the outcome differs from the "
+                             "body's own: %s" % (c.cmd, shared[1], d), dict(c.describe(), history=list(shared[2][:-1])))
         if layout and out["status"] == "ok" and c.inputs and c.inputs[0].ndim >= 2 and ctx.rng.random() < 0.5:
             # the same cells in another memory layout (Fortran order, or a transposed view of the transposed data)
             def relayout(a):
